@@ -3,7 +3,7 @@
 //! and extraction of the stored map.
 use std::collections::BTreeMap;
 
-use crate::layout::{decode_head, decode_trans, Form};
+use crate::layout::{decode_head, decode_index, decode_trans, Form};
 use crate::refenc::crc32c;
 
 pub struct Decoded {
@@ -81,6 +81,17 @@ pub fn decode_file(bs: &[u8]) -> Result<Decoded, String> {
         *depth = (*depth).max(key.len());
         if h.is_final {
             kvs.push((key.clone(), acc.checked_add(h.final_output).ok_or("value overflow")?));
+        }
+        if h.form == Form::AnyTrans && version >= 2 && h.ntrans > 32 {
+            for b in 0..=255u8 {
+                let mut want = None;
+                for i in 0..h.ntrans {
+                    if decode_trans(bs, &h, i).0 == b { want = Some(i); }
+                }
+                if decode_index(bs, &h, version, b) != want {
+                    return Err(format!("index table of node {} disagrees with its inputs at byte {}", addr, b));
+                }
+            }
         }
         let mut prev: Option<u8> = None;
         for i in 0..h.ntrans {
